@@ -268,6 +268,19 @@ def forwardEncSize (src dst : Endpoint) : Option Nat :=
 
 def stunHeaderSize : Nat := 9
 
+/-- `qtraversal::nat::msg::be_packet` (= `qprotocol::stun::msg::be_packet`, the same file) on what
+`deliver_stun_packet` passes it, outcome class only: streaming `be_u16`; the 16-byte transaction id
+(`split_at(16)` panics when fewer bytes are left — guarded since `fix-C03-stun-short-message`); the type must be
+BINDING_REQUEST (0x0001) or BINDING_RESPONSE (0x0101); `many0(be_attr)` cannot fail (an attribute error ends
+the list, every attribute consumes at least its type byte) and its value is not modelled. -/
+def stunMsg (body : Bytes) : Res Unit :=
+  if body.length < 2 then .err .incomplete else
+  let typ := beVal (body.take 2)
+  let remain := body.drop 2
+  if remain.length < 16 then .err .incomplete else
+  if 16 > remain.length then .panic "qtraversal/src/nat/msg.rs:be_packet:split_at(16)" else
+  if typ == 0x0001 || typ == 0x0101 then .ok () [] else .err (.nom .alt)
+
 /-- What the receive task of `qtraversal/src/route.rs` does with one datagram (the forwarder's
 `should_forward` branch re-sends the datagram unchanged and is not a decoder). -/
 inductive Demux
